@@ -11,6 +11,7 @@ record (then True is the right answer) or is malformed (then True is a violation
 and any exception other than ValueError/TypeError is a violation).
 """
 import base64
+import random
 import struct
 
 from mon.core.merge import merge, need
@@ -258,6 +259,38 @@ def run_shard(cfg):
         if len(violations) < 40:
             violations.append({"mechanism": mech, "msg": msg, "case": case,
                                "case_key": [cfg["seed"], cfg["shard"]]})
+
+    # ---- long passwords (every shard, cheap reference-built records): every byte of the password counts - the right one verifies,
+    #      one that differs only at / beyond a power-of-two offset, only in its last byte, or is cut at such an offset does not
+    rl = random.Random("c19-long-%s-%s" % (cfg["seed"], cfg["shard"]))
+    for L in (65, 73, 129, 257, 1025, 1026, 2049, 4097, rl.choice([65537, 70001, 262145])):
+        pl = bytes(rl.randrange(1, 256) for _ in range(min(L, 4097))) + bytes(L - min(L, 4097))
+        salt = bytes(rl.randrange(256) for _ in range(16))
+        hl = ref_hash(pl, 4, 1, 1, salt, 24)
+        try:
+            ok = Auth.verify_password(pl, hl)
+        except Exception as e:
+            viol("right-password-raises", "verify(p, reference record of p) raised %r for a password of %d bytes" % (e, L), {"len": L})
+            continue
+        counters.inc("long_password_right_checked")
+        if ok is not True:
+            viol("right-password-rejected", "verify(p, reference record of p) = %r for a password of %d bytes" % (ok, L), {"len": L})
+        cuts = [b for b in (55, 56, 64, 72, 128, 255, 256, 512, 1000, 1024, 2048, 4096, 65536) if b < L]
+        qs = [("differs-only-in-last-byte", pl[:-1] + bytes([pl[-1] ^ 1]))]
+        for b in cuts:
+            qs.append(("differs-only-at-byte-%d" % b, pl[:b] + bytes([pl[b] ^ 0x40]) + pl[b + 1:]))
+            qs.append(("cut-at-%d" % b, pl[:b]))
+        qs.append(("one-byte-longer", pl + b"\x00"))
+        for kind, q in qs:
+            try:
+                res = Auth.verify_password(q, hl)
+            except Exception as e:
+                viol("wrong-password-raises", "verify(q, h) raised %r (long password, %s)" % (e, kind), {"len": L, "kind": kind})
+                continue
+            counters.inc("long_password_neighbours_checked")
+            distinct.add(h64("long", L, kind, cfg["shard"]))
+            if res is not False:
+                viol("wrong-password-accepted", "verify(q, h) = %r for a %d-byte password and q that %s" % (res, L, kind), {"len": L, "kind": kind})
 
     # ---- expensive part: the real hash_password
     pws = passwords(r, cfg["shard"], cfg["nshards"])
@@ -630,7 +663,7 @@ def finish(tier, seed, results):
     m = merge(results)
     inconclusive = []
     need(m["counters"], ["right_password_checked", "wrong_password_checked", "fresh_salt_checked",
-                         "corruptions", "malformed_raised", "control_true", "control_false", "kdf_calls", "configurations_ok", "lookalike_pairs_checked", "kdf_failure_not_true", "forked_hashes_checked", "digest_shaped_passwords_checked", "heavier_parameter_records_checked"], inconclusive)
+                         "corruptions", "malformed_raised", "control_true", "control_false", "kdf_calls", "configurations_ok", "lookalike_pairs_checked", "kdf_failure_not_true", "forked_hashes_checked", "digest_shaped_passwords_checked", "heavier_parameter_records_checked", "long_password_right_checked", "long_password_neighbours_checked"], inconclusive)
     cov = {
         "evaluations": m["evaluations"],
         "distinct_nontrivial": m["distinct_nontrivial"],
